@@ -168,8 +168,18 @@ func (fx *FuncVC) decodeRune(s StrV, guard T) (T, T) {
 	if fx.bv {
 		panic(unsupported("rune decoding in mode bv"))
 	}
-	r := fx.fresh("rune", SInt)
-	w := fx.fresh("width", SInt)
+	// the same uninterpreted functions as pureApp gives utf8.DecodeRuneInString, so that
+	// contracts can name the rune and width at a position
+	var sorts []Sort
+	for _, t := range flat(s) {
+		sorts = append(sorts, t.Sort)
+	}
+	n0 := fmt.Sprintf("pf_%s_%d", sanitize("utf8.DecodeRuneInString"), 0)
+	n1 := fmt.Sprintf("pf_%s_%d", sanitize("utf8.DecodeRuneInString"), 1)
+	fx.declareFun(n0, sorts, SInt)
+	fx.declareFun(n1, sorts, SInt)
+	r := fx.define("rune", app(n0, SInt, flat(s)...))
+	w := fx.define("width", app(n1, SInt, flat(s)...))
 	b0 := Select(Select(fx.strHeap(), s.Base), s.Off)
 	fx.assume(Implies(guard, And(
 		Le(IntC(1), w, true), Le(w, IntC(4), true), Le(w, s.Len, true),
@@ -177,8 +187,10 @@ func (fx *FuncVC) decodeRune(s StrV, guard T) (T, T) {
 		Implies(Lt(b0, IntC(0x80), true), And(Eq(r, b0), Eq(w, IntC(1)))),
 		Implies(Le(IntC(0x80), b0, true), Le(IntC(0x80), r, true)),
 		Implies(Lt(IntC(1), w, true), Le(IntC(0x80), b0, true)),
+		Implies(Le(IntC(0x10000), r, true), Eq(w, IntC(4))),
+		Implies(Eq(w, IntC(1)), Or(Lt(r, IntC(0x80), true), Eq(r, IntC(0xFFFD)))),
 	)))
-	fx.trusted["utf8 decoding (range over string): 1<=w<=4, ASCII byte decodes to itself with w=1, non-ASCII lead byte gives r>=0x80"] = true
+	fx.trusted["utf8 decoding (range over string): 1<=w<=4, ASCII byte decodes to itself with w=1, non-ASCII lead byte gives r>=0x80, r>=0x10000 has w=4, w=1 is ASCII or U+FFFD"] = true
 	_ = fmt.Sprint
 	return r, w
 }
